@@ -122,7 +122,7 @@ func init() {
 	core.Register(&core.Check{
 		Spec: core.Spec{
 			Prop:        "C10",
-			Rule:        "Same scenario engine with rule-breaking offers on every entry point: issuer = proposing node's wallet (local), issuer = sealer for gossiped vertices (also sealed by a wallet that is itself a node), issuer = genesis wallet, transactions with neither data nor spice, each also delivered before its parent and replayed from the orphan buffer. Each forbidden offer must return an error and leave neither vertex, parked entry nor index entry; every snapshot is scanned for self-sealed / genesis-issued / empty vertices; sync streams carrying a forbidden vertex on a tip or as a second root (zero parent hashes, zero left parent) must not yield a loaded node holding it. Non-trivial = forbidden offers; distinct by (rule, entry point, node role). 'No data' is offered in both spellings (absent slice, empty slice).",
+			Rule:        "Same scenario engine with rule-breaking offers on every entry point: issuer = proposing node's wallet (local), issuer = sealer for gossiped vertices (also sealed by a wallet that is itself a node), issuer = genesis wallet, transactions with neither data nor spice, each also delivered before its parent and replayed from the orphan buffer. Each forbidden offer must return an error and leave neither vertex, parked entry nor index entry; every snapshot is scanned for self-sealed / genesis-issued / empty vertices; sync streams carrying a forbidden vertex on a tip or as a second root (zero parent hashes, zero left parent) must not yield a loaded node holding it. Non-trivial = forbidden offers; distinct by (rule, entry point, node role). 'No data' is offered in both spellings (absent slice, empty slice). One batch drives the gossip service of a whole node: an orphan, then a forbidden vertex on known parents (self sealed, empty in both spellings, issued by the genesis wallet), then the parent and the replay of the orphan buffer; the ledger must hold the orphan and nothing forbidden.",
 			Assumptions: []string{ledgerAssume},
 			MinEvals:    300, MinNontriv: 8,
 		},
